@@ -294,4 +294,23 @@ def run(prop: str, tier: str, seed: int) -> int:
 
 
 def replay(prop: str, case: dict) -> dict:
-    return {"clause": "replay-by-rerun", "case": case}
+    """Re-validate the recorded run against the specification it was judged by."""
+    rec = dict(case)
+    rec["id"] = "replay"
+    if "evals" in rec:
+        mod, cfg = "runs/Trace_Run", None
+    elif "packs" in rec:
+        mod, cfg = "binpack/Trace_Obj", None
+    elif "wit" in rec:
+        mod, cfg = "binpack/Trace_LB", None
+        rec.pop("bound_names", None)
+    elif "tours" in rec:
+        mod, cfg = "tsp/Trace_TSP", 'SPECIFICATION Spec\nCONSTANT Prop = "C05"\n'
+    elif "perms" in rec:
+        mod, cfg = "qap/Trace_QAP", None
+    elif "plans" in rec and "M" in rec:
+        mod, cfg = "ttp/Trace_TTP", 'SPECIFICATION Spec\nCONSTANT Prop = "C08"\n'
+    else:
+        mod, cfg = "ttp/Trace_TTP", 'SPECIFICATION Spec\nCONSTANT Prop = "C07"\n'
+    vs = core.validate(mod, [rec], cfg_text=cfg)
+    return {"clause": vs["replay"], "case": rec, "mode": "revalidated-recorded-case"}
